@@ -115,6 +115,15 @@ def _run(ctx, enzyme, v, mods, order=None):
     ann = lambda *k: gen.annotation_variety("c03", enzyme, *k)
     vec = V(CircularRecord(Seq(_plasmid(enzyme, "V", v[0], v[1])), "v", annotations=ann("v", v[0], v[1], len(mods))))
     ents = [M(CircularRecord(Seq(_plasmid(enzyme, "M", a, b)), "m%d" % i, annotations=ann("m", a, b, i))) for i, (a, b) in enumerate(mods)]
+    if len(set(mods)) < len(mods) and (len(mods) + ord(v[0][0])) % 2 == 0:
+        # the same plasmid supplied twice as two entities that wrap one and the same record object
+        first = {}
+        for i, t in enumerate(mods):
+            if t in first:
+                ents[i] = M(ents[first[t]].record)
+                ctx.count("c03_entities_sharing_a_record")
+            else:
+                first[t] = i
     ctx.count("evaluations")
     _mon.tag = {"v": list(v), "mods": [list(x) for x in mods]}
     import warnings
